@@ -206,10 +206,15 @@ ENUMS["treeev"] = dict(subst=dict(Bundles="B_One", InitOps="Init_Listen"), budge
 # every tree over reactive components: mutate / remove / despawn / insert by the driver and by the reactors they trigger, then a frame end
 ENUMS["treecomp"] = dict(subst=dict(Bundles="B_One", InitOps="Init_Comp"), budget=dict(quick=3, thorough=4),
                          consts=C(NSys=2, NEnt=2, NVal=1, OpNames={"mut", "rm", "desp", "ins"}, MaxOps=2, BodyOps=2, Budget=3, MaxSteps=3, FinalStep="clear"))
+# an app whose ONLY reactor is an entity-scoped removal reactor (no type-wide table entry, no despawn reactor): removals by command and
+# by direct access, then a frame end - the scheduled poll must still happen
+ENUMS["tabonly"] = dict(subst=dict(Bundles="B_One", InitOps="Init_OnlyErem"),
+                        consts=C(NSys=1, NEnt=1, OpNames={"rm", "xrm", "desp", "ins"}, MaxOps=3, BodyOps=0, Budget=3, MaxSteps=3,
+                                 StepKinds={"ops", "direct"}, FinalStep="clear"))
 PROP_ENUMS = {
     "C01": ["tabcomp", "tabev", "treeev"], "C06": ["tabcomp", "tabev", "tabrem", "tabworld", "tabdesp"], "C07": ["tabev", "tabmix", "tabcomp"], "C15": ["tabev", "tabcomp", "tabdesp"],
     "C11": ["tabdesp", "treeev"], "C12": ["treesys"], "C02": ["treesys"], "C09": ["treesys"], "C03": ["treeev"], "C04": ["treeev"], "C05": ["treeev"],
-    "C16": ["tabworld"], "C18": ["tabmix", "treecomp"], "C08": ["tabmix", "tabrem", "tabdesp", "treecomp"], "C14": ["treecomp"], "C13": ["treeev"],
+    "C16": ["tabworld"], "C18": ["tabmix", "treecomp"], "C08": ["tabmix", "tabrem", "tabdesp", "treecomp", "tabonly"], "C14": ["treecomp"], "C13": ["treeev"],
 }
 
 # which groups decide which property; the first group is the property's "home"
